@@ -29,7 +29,8 @@ NoCtr == [exists |-> FALSE, code |-> 0, label |-> "", admin |-> "", mark |-> "",
 AtomOf(f) == IF f = 7 THEN 3 ELSE f
 NoRes == [ok |-> TRUE, kind |-> "none", code |-> 0]
 
-MethodsOfKind(k) == UNION {{[part |-> MP.parts[i].id, m |-> m] : m \in Range(EMethodsOf(MP.parts[i], k))} : i \in 1..Len(MP.parts)}
+(* (queries whose declared response type differs from what the handler returns cannot be decoded by their own helpers: left out) *)
+MethodsOfKind(k) == UNION {{[part |-> MP.parts[i].id, m |-> m] : m \in {x \in Range(EMethodsOf(MP.parts[i], k)) : x.ret = x.resp}} : i \in 1..Len(MP.parts)}
 InstM == EMethodsOf(OwnPart, "instantiate")[1]
 HasMigrate == Len(EMethodsOf(OwnPart, "migrate")) > 0
 MigM == EMethodsOf(OwnPart, "migrate")[1]
